@@ -109,6 +109,9 @@ def check(ctx):
     for i, ln in enumerate(lines):
         if i % 400 == 0: script.append("R %d" % rng.randrange(1, 10 ** 6))
         script.append(ln)
+        # re-entrant use: the comparator itself sorts and searches another array through the library every third call
+        if ln[0] in "QB" and rng.random() < 0.12:
+            w = ln.split(" ", 1); script.append(w[0] + "N " + w[1])
     ctx.samples.append({"calls": [script[1], script[len(script) // 2], script[-1]]})
     t = ctx.drive(drv, script, "stdlib")
     bad = ctx.judge("StdlibTrace", [t], shards=16)
@@ -117,6 +120,7 @@ def check(ctx):
     ctx.assumptions += [
         "LP64: long, long long and intmax_t are 64 bit, int 32 bit; atoi/atol are compared only where the value is representable (ISO leaves overflow undefined)",
         "qsort elements carry their identity in the payload so that the permutation check is on whole elements; comparators are key and key div d (consistent weak orders); compat rand() is seeded per execution so pivots vary",
+        "re-entrant use: a sample of the qsort/bsearch calls is repeated with a comparator that itself calls qsort and bsearch on another array every third comparison",
         "bsearch comparator calls are logged with the positions of both arguments: key first, an element of the array second",
     ]
     return ctx.finish(rule="numeric texts around every base's alphabet edge, 0x/0 prefixes and each type's overflow boundary x bases {0,2,8,10,16,36,...}; all short texts over a 9-character alphabet; qsort on all arrays up to length 5 over 3 keys + random arrays up to 64 with element sizes 1..32; bsearch on sorted arrays incl. empty with present and absent keys; each call judged by StdlibTrace.tla")
@@ -129,8 +133,8 @@ def replay(ctx, path):
     if e.get("e") == "Fault":
         return core.replay_fault(ctx, d, drv, "StdlibTrace", path)
     if e["e"] == "Strto": ln = "Strto %s %s %d" % (e["fn"], fmt(e["text"]), e["base"])
-    elif e["e"] == "Qsort": ln = "Qsort %d %d %s" % (e["size"], e["div"], fmt(e["keys"]))
-    else: ln = "Bsearch %d %d %s %d" % (e["size"], e["div"], fmt(e["keys"]), e["key"])
+    elif e["e"] == "Qsort": ln = "Qsort%s %d %d %s" % ("N" if e.get("nested") else "", e["size"], e["div"], fmt(e["keys"]))
+    else: ln = "Bsearch%s %d %d %s %d" % ("N" if e.get("nested") else "", e["size"], e["div"], fmt(e["keys"]), e["key"])
     t = ctx.drive(drv, ["R 1", ln], "replay")
     ctx.report(ctx.judge("StdlibTrace", [t]))
     return ctx.finish(rule="replay of " + path)
